@@ -91,6 +91,8 @@ def expand(combo, count_obs):
     out = []
     for k in range(n + 1):
         out.append(_base(combo, {'crash': {'k': k, 'tear': None}}))
+        if k < n:
+            out.append(_base(combo, {'crash': {'k': k, 'tear': None, 'when': 'after'}}))
         if k > 0 and muts[k - 1][0] == 'wopen':
             for t in TEARS:
                 out.append(_base(combo, {'crash': {'k': k, 'tear': dict(t)}}, hs2=2))
